@@ -14,6 +14,31 @@ and after every third operation and at the end
        built from the same spec (eager and lazy validation; error sets
        compared by (reason, column, check), accepted results by content).
 
+and, whenever the history lets a LIVE data object meet the schema again
+(``reuse_validate``: the probe objects of the case are kept, never cloned;
+the frames returned by validations and the ``.data`` of raised errors join
+them; ``reuse_edit`` edits one in place)
+
+  REUSE  verdict(S, live object D) == verdict(pristine twin, deep copy of D's
+         content right before the call), through validate / __call__ /
+         Model.validate / check_input / check_output, eager and lazy, with
+         inplace=True/False and head / tail / sample.  (check_types documents in
+         its source that it skips frames whose accessor carries an equal
+         schema: generated, counted as undecided, not judged.)
+
+``overlap`` steps run two calls on S (mostly validate; also coerce_dtype,
+get_dtypes, to_yaml / to_json / to_script, statistics, str, deepcopy, ==) under
+the deterministic scheduler of pvm/c07_sched.py: a solo scouting run finds the
+source lines at which the shared schema is temporarily modified (identity view
+of its attributes, pvm.c05_ops.SharedState); then A is parked at such a line
+(or, when there is none, at a seeded line), B runs to the same line, A
+completes, B completes.  The step is judged by FP / EQ / VER after both have
+returned, never while they run.
+
+Schemas with dtype-less columns (with and without a dataframe-level dtype)
+hold at least one real draw (example) in their history: drawing is the only
+operation that resolves such a dtype.
+
 Operations may raise; that is recorded and not judged here.  After a
 violation the schema is rebuilt from its spec so that one defect does not
 cascade into the rest of the history.
@@ -32,7 +57,10 @@ from ..evidence import Run, canon_hash
 PID = "C05"
 SHARDS = {"quick": 8, "thorough": 16}
 N = {"quick": 288, "thorough": 9600}
-SHARD_TIMEOUT = {"quick": 900, "thorough": 2400}
+import os as _os
+# the per-shard watchdog can be widened on an oversubscribed machine
+SHARD_TIMEOUT = {"quick": int(_os.environ.get("PVM_C05_SHARD_TIMEOUT", 900)),
+                 "thorough": int(_os.environ.get("PVM_C05_SHARD_TIMEOUT", 2400))}
 
 
 def new_run():
@@ -40,8 +68,15 @@ def new_run():
         PID, "exploration",
         "case = (schema spec, history of 4-12 public operations, <=6 probe "
         "frames) from pvm.c05_gen / pvm.c05_ops; pandas DataFrameSchema / "
-        "SeriesSchema / Column, DataFrameModel-backed (cached) schemas, polars "
-        "DataFrameSchema / model; non-trivial = the pristine verdict vector has "
+        "SeriesSchema / Column (incl. dtype-less columns under a frame-level "
+        "dtype), DataFrameModel-backed (cached) schemas, polars "
+        "DataFrameSchema / model; histories include validations of LIVE data "
+        "objects (same frame object meets the same schema object again: inplace, "
+        "returned frames, error.data, after head/tail/sample, after in-place "
+        "edits; judged against a pristine twin on a deep copy), steps with two "
+        "overlapping calls on the schema under a deterministic scheduler "
+        "(parked inside regions where the schema is temporarily modified), and "
+        "real draws from strategies; non-trivial = the pristine verdict vector has "
         "at least one accepted and one rejected probe and the history contains "
         ">=3 different operation kinds; distinct = canonical hash of (spec, history)",
         ["fingerprint (pvm/fingerprint.py) walks __dict__ of every pandera "
@@ -50,6 +85,13 @@ def new_run():
          "verdict = outcome kind + set of (reason, column, check) / content of "
          "the returned object; exception messages are not compared",
          "histories <= 12 ops, frames of 3 rows, <= 6 columns",
+         "overlap steps: two threads, one double preemption per step (A parked, "
+         "B parked at the same source line, A completes, B completes); the "
+         "schema is judged only after both calls returned; sys.monitoring LINE "
+         "granularity (pvm/c07_sched.py)",
+         "state kept on data objects is only seen for the objects of the case "
+         "(probe objects, validation results, error.data); check_types' "
+         "documented skip of frames carrying an equal schema is not judged",
          "model-backed schemas use plain annotations (numpy-2.5 sandbox limit); "
          "model index fields are not reachable"])
 
@@ -124,6 +166,9 @@ _RE_COL = re.compile(r"columns\.__dict_items__\[(\d+)\]\[1\]\.(\w+)")
 def classify(w):
     """Mechanism key from the witness (diff path, culprit op, spec, facts)."""
     d, op, spec = w.get("diff") or "", w["op"], w["spec"]
+    if op["op"] == "overlap":
+        # two overlapping calls of one kind: attributed like a single call
+        op = dict(op, op=op.get("what", "validate"))
     validating = op["op"] in O.VALIDATING
     cols = spec["columns"]
     m = _RE_COL.search(d)
@@ -172,6 +217,12 @@ def classify(w):
     return None
 
 
+def classify_reuse(w):
+    """Mechanism of a REUSE violation.  No mechanism of the unchanged tree is
+    known; everything is reported unclassified (and fails the run)."""
+    return None
+
+
 # --------------------------------------------------------------------------
 class Watch:
     """The schema under observation with its reference observations."""
@@ -195,6 +246,9 @@ class Watch:
         if self.snapshot is None:
             self.run.count("undecided:EQ-schema-not-equal-to-own-deepcopy")
         self.hist = []
+        # live data objects of the case start afresh with the schema (they may
+        # carry references to the schema object they met)
+        O.reset_pool(self.built, self.probes)
 
     def current(self):
         if self.built.model is not None:
@@ -220,6 +274,8 @@ class Watch:
         w = {"spec": self.spec, "history": list(self.hist), "op": op,
              "op_raised": raised, "diff": d, "eq_snapshot": eq_ok,
              "facts_after": facts(cur, self.spec)}
+        if op["op"] == "overlap":
+            w["overlap"] = getattr(self.built, "last_overlap", None)
         # observable consequence: verdicts of the mutated schema (computed for
         # the first occurrence of each diff path in this case; it is evidence,
         # not a deciding monitor)
@@ -247,11 +303,17 @@ class Watch:
         return False
 
     def step(self, op):
+        if op["op"] == "reuse_validate":
+            return self.step_reuse(op)
+        if op["op"] == "overlap":
+            return self.step_overlap(op)
         raised = None
         try:
             with warnings.catch_warnings():
                 warnings.simplefilter("ignore")
                 label = O.apply(op, self.built, self.probes)
+            if op["op"] == "reuse_edit":
+                self.run.count(f"REUSE:edit:{label}")
             self.run.count(f"op:{op['op']}:{label if label != 'done' else 'returned'}"
                            if op["op"] in ("model_to_schema", "yaml_roundtrip_eq",
                                            "eq_twin") else f"op:{op['op']}:returned")
@@ -262,7 +324,93 @@ class Watch:
         self.hist.append(op)
         if op["op"] in ("transform", "derived_validate"):
             self.run.count(f"receiver_watched:{op['method']}")
+        if op["op"] in ("example", "strategy") and any(
+                c.get("no_dtype") for c in self.spec["columns"]):
+            # drawing is the only operation that resolves the dtype of a
+            # dtype-less column (the unchanged tree refuses: the op raises)
+            self.run.count(f"HYP:{op['op']}:schema_with_dtype_less_column")
+            if self.spec.get("dtype"):
+                self.run.count(f"HYP:{op['op']}:frame_dtype+dtype_less_column")
         return self.observe(op, raised)
+
+    def step_reuse(self, op):
+        """REUSE monitor: the verdict of S on a LIVE object (one that S, or the
+        history, has met before) == the verdict of a pristine twin on a fresh
+        deep copy of that object's content."""
+        run = self.run
+        with warnings.catch_warnings():
+            warnings.simplefilter("ignore")
+            info = O.apply_reuse(op, self.built, self.probes, twin=G.build(self.spec))
+        self.hist.append(op)
+        sig, twin = info["sig"], info["twin_sig"]
+        run.count(f"op:reuse_validate:{'returned' if sig[0] == 'ok' else 'raised'}")
+        clean = self.observe(op, sig[0] if sig[0] != "ok" else None)
+        if not clean:
+            return False              # reported through FP / EQ, healed
+        if op["via"] == "check_types":
+            # check_types documents (in its source) that it does not validate a
+            # frame again whose `pandera` accessor carries an equal schema
+            run.count("undecided:REUSE-check_types-skips-frames-carrying-an-equal-schema")
+            if sig != twin:
+                run.count("undecided:REUSE-check_types-verdict-differs-from-twin")
+            return True
+        run.count("REUSE:evaluated")
+        run.count(f"REUSE:via:{op['via']}")
+        run.count(f"REUSE:object:{info['origin']}")
+        if info["met"]:
+            run.count("REUSE:object_met_this_schema_before")
+        marks = info["marks"]
+        for cls, on in [("after_failed_inplace", any(m.startswith("failed:inplace") for m in marks)),
+                        ("after_ok_inplace", any(m.startswith("ok:inplace") for m in marks)),
+                        ("after_subsample", any("subsample" in m for m in marks)),
+                        ("after_edit", bool(marks) and marks[-1].startswith("edited")
+                         and info["met"] > 0),
+                        ("inplace", bool(op.get("inplace"))),
+                        ("lazy", bool(op.get("lazy"))),
+                        ("subsample", any(k in op for k in ("head", "tail", "sample")))]:
+            if on:
+                run.count(f"REUSE:{cls}")
+        run.count(f"REUSE:twin_verdict:{twin[0]}")
+        if sig == twin:
+            run.count("REUSE:agree")
+            return True
+        w = {"spec": self.spec, "history": list(self.hist), "op": op, "diff": None,
+             "object": {k: info[k] for k in ("slot", "tag", "origin", "met", "marks",
+                                             "via", "kwargs")},
+             "verdict_of_schema_under_observation": sig,
+             "verdict_of_pristine_twin_on_deep_copy": twin}
+        run.violation("verdict-on-reused-data-object-differs-from-pristine-twin",
+                      w, classify_reuse(w))
+        self.fresh()
+        return False
+
+    def step_overlap(self, op):
+        """Two overlapping validations with S; judged by FP / EQ (and the VER
+        checkpoints that follow) once both have returned."""
+        run = self.run
+        try:
+            with warnings.catch_warnings():
+                warnings.simplefilter("ignore")
+                info = O.apply_overlap(op, self.built, self.probes)
+        except Exception as e:
+            run.count(f"overlap:harness:{type(e).__name__}")
+            run.count("undecided:overlap-not-run")
+            self.fresh()
+            return True
+        self.hist.append(op)
+        run.count(f"op:overlap:{info['label']}")
+        if not info["finished"]:
+            # a worker may still be inside pandera: nothing is judged
+            run.count("undecided:overlap-schedule-not-finished")
+            self.fresh()
+            return True
+        run.count(f"overlap:targeted:{info['targeted']}")
+        run.count(f"overlap:what:{info['what']}")
+        if info["label"] == "both-inside":
+            run.count("overlap:both_calls_inside_the_same_region")
+        for o in info["outcomes"]:
+            run.count(f"overlap:outcome:{o}")
+        return self.observe(op, None)
 
     def checkpoint(self, k=None):
         """VER monitor: verdicts of S itself (FP watched per probe).  The final
@@ -306,6 +454,7 @@ def one_case(run, rng, case_id, allow_hypothesis=True, cold=False):
         spec["columns"][0]["regex"] = True
         spec["columns"][0]["name"] = "^r_.*$"
         spec["columns"][0]["unique"] = False
+    G.widen_dtype_less(rng, spec)
     try:
         G.build(spec)
     except Exception as e:
@@ -327,8 +476,28 @@ def one_case(run, rng, case_id, allow_hypothesis=True, cold=False):
     n_rej = sum(1 for b in base if b[0][0] in ("SchemaError", "SchemaErrors"))
     n_ops = rng.randint(4, 12)
     ops = []
+    # most warm cases hold one step in which two calls on the schema overlap
+    k_overlap = rng.randrange(n_ops) if (not cold and rng.random() < 0.7) else -1
+    # schemas with dtype-less columns: data is drawn at least once (drawing is
+    # the only operation that resolves their dtype)
+    k_draw = -1
+    if allow_hypothesis and any(c.get("no_dtype") for c in spec["columns"]):
+        k_draw = rng.randrange(n_ops)
     for k in range(n_ops):
-        op = O.gen_op(rng, w.built, len(probes), allow_hypothesis)
+        op = O.gen_op(rng, w.built, len(probes), allow_hypothesis,
+                      allow_threads=not cold)
+        if ops and ops[-1]["op"] == "reuse_edit" and k not in (k_draw, k_overlap):
+            # an object edited in place meets the schema again right away
+            op = {"op": "reuse_validate"}
+            op.update(O.gen_reuse(rng, spec["kind"], spec))
+            op["prefer"] = "last"
+            if op["via"] == "check_types":
+                op["via"] = "validate"
+        if k == k_draw and op["op"] != "example":
+            op = {"op": "example", "size": rng.choice([1, 2])}
+        elif k == k_overlap and op["op"] != "overlap":
+            op = {"op": "overlap"}
+            op.update(O.gen_overlap(rng, len(probes), spec["kind"], spec))
         ops.append(op)
         w.step(op)
         if k % 3 == 2:
@@ -347,6 +516,10 @@ def one_case(run, rng, case_id, allow_hypothesis=True, cold=False):
                      ("multiindex", len(spec.get("index") or []) > 1),
                      ("tz_agnostic", any(c["dtype"] == "dtz" for c in spec["columns"])),
                      ("key!=name", bool(spec.get("keyname"))),
+                     ("dtype_less_column", any(c.get("no_dtype") for c in spec["columns"])),
+                     ("frame_dtype+dtype_less_column", bool(spec.get("dtype")) and any(
+                         c.get("no_dtype") for c in spec["columns"])),
+                     ("frame_coerce", bool(spec.get("coerce"))),
                      ("parsers", bool(spec.get("parsers")) or any(
                          c.get("parsers") for c in spec["columns"])),
                      ("custom_check", any(k["kind"] == "custom" for c in spec["columns"]
@@ -424,8 +597,25 @@ def finalize(run, ctx):
                     ("FP:after:to_yaml", 20), ("FP:after:to_json", 12),
                     ("FP:after:pickle", 15), ("FP:after:deepcopy", 12),
                     ("FP:after:coerce_dtype", 15), ("FP:after:model_validate", 6),
-                    ("FP:after:model_misc", 5), ("FP:after:strategy", 5),
-                    ("FP:after:example", 5),
+                    ("FP:after:model_misc", 5), ("FP:after:strategy", 4),
+                    ("FP:after:example", 15),
+                    # live data objects meeting the same schema object again
+                    ("FP:after:reuse_validate", 95), ("REUSE:evaluated", 90),
+                    ("REUSE:agree", 90), ("REUSE:object_met_this_schema_before", 35),
+                    ("REUSE:inplace", 50), ("REUSE:after_failed_inplace", 8),
+                    ("REUSE:after_ok_inplace", 6), ("REUSE:after_subsample", 6),
+                    ("REUSE:after_edit", 5), ("REUSE:object:result", 8),
+                    ("REUSE:object:error.data", 4),
+                    # two overlapping calls on one schema object
+                    ("FP:after:overlap", 50),
+                    ("overlap:both_calls_inside_the_same_region", 50),
+                    ("overlap:what:validate", 30),
+                    # draws on schemas with dtype-less columns
+                    ("feature:dtype_less_column", 7),
+                    ("feature:frame_dtype+dtype_less_column", 3),
+                    ("HYP:example:schema_with_dtype_less_column", 10),
+                    ("HYP:example:frame_dtype+dtype_less_column", 4),
+                    ("feature:frame_coerce", 11),
                     ("feature:regex", 20), ("feature:df_checks", 10),
                     ("feature:tz_agnostic", 6), ("feature:key!=name", 4),
                     ("feature:multiindex", 4), ("feature:index", 8),
@@ -446,6 +636,7 @@ def replay(path):
     spec, hist = w["spec"], w["history"]
     probes = G.probes(spec, _probe_rng(spec))
     built = G.build(spec)
+    O.reset_pool(built, probes)
     cur = (lambda: built.model.to_schema() if built.model is not None else built.schema)
     fp0 = F.fp(cur())
     for op in hist:
@@ -453,6 +644,16 @@ def replay(path):
             if op["op"] == "probe":
                 H.run_validate(cur(), G.clone(probes[op["probe"] % len(probes)][1]),
                                lazy=op["lazy"])
+            elif op["op"] == "reuse_validate":
+                with warnings.catch_warnings():
+                    warnings.simplefilter("ignore")
+                    info = O.apply_reuse(op, built, probes, twin=G.build(spec))
+                if op["via"] != "check_types" and info["sig"] != info["twin_sig"]:
+                    print(f"VIOLATION property={PID} replay={path}\n  after {op}: "
+                          f"object {info['tag']} (marks {info['marks']}): schema says "
+                          f"{info['sig']}, pristine twin on a deep copy says "
+                          f"{info['twin_sig']}")
+                    return 1
             else:
                 if "probe" in op:
                     op = dict(op, probe=op["probe"] % len(probes))
